@@ -102,7 +102,7 @@ Proof. exact monitor_C12_refuted. Qed.
    continues to the inventory-set task without an error event, and object 1 stays in the inventory
    (the inventory conjunct of the monitor); hypotheses of C12_monitor_partial hold *)
 Example C12_nonvacuous_finalizer_timeout :
-  let univ := [mkU KNs None None; mkUF KPlain None None true; mkU KPlain None None] in
+  let univ := [mkU KNs None None; mkUF KPlain None None true true; mkU KPlain None None] in
   let o := mkO true true PMustMatch DNone VSkipInvalid false false true false PropBackground false in
   let sc := mkSc univ None [] o
                  (mkE [] [mkW [mkS 2 SNotFound false 0%N 0%Z; mkS 1 STerminating true 5%N 2%Z] WTimeout] CNever None) in
